@@ -1039,6 +1039,8 @@ class Interp:
                 items = [Unknown(it.tag + "[i]")]
             else:
                 items = []
+        elif isinstance(it, LazyFilter):
+            items = it._walk()
         elif isinstance(it, list):
             # Python semantics: a list that grows while it is being iterated hands out the new elements too (the queue of pending
             # market orders is flushed this way)
@@ -1834,8 +1836,38 @@ def _b_chr(it, args, kw):
     return Unknown("chr")
 
 
+class LazyFilter(IterV):
+    """filter(pred, a_list): a one-shot iterator that walks the LIVE list by position and tests each element when it gets there -
+    removing an element from the list while the iterator is being consumed shifts what it sees next (as in CPython)"""
+
+    def __init__(self, it, pred, src):
+        self.it, self.pred, self.src, self.pos = it, pred, src, 0
+        self.done = False
+
+    @property
+    def items(self):
+        # consuming view (used by len() / sum(): evaluates what is left)
+        return list(self._walk())
+
+    @items.setter
+    def items(self, v):
+        # iterate() empties the iterator after a pass
+        if not v:
+            self.done = True
+
+    def _walk(self):
+        while not self.done and self.pos < len(self.src):
+            x = self.src[self.pos]
+            self.pos += 1
+            if self.it.truth(self.it.call(self.pred, [x], {}) if self.pred is not None else x):
+                yield x
+        self.done = True
+
+
 def _b_filter(it, args, kw):
     f, xs = args
+    if isinstance(xs, list):
+        return LazyFilter(it, f, xs)
     # (evaluated eagerly; what matters here is that the RESULT is a one-shot iterator, not a list)
     return IterV([x for x in it.iterate(xs) if it.truth(it.call(f, [x], {}) if f is not None else x)])
 
